@@ -59,6 +59,7 @@ class Interproc:
         self.results = {}
         self.in_progress = set()
         self.an = Analyzer(facts, interproc=self)
+        self.prev_sum = {}
         self.cyclic = set()
         for comp in cg.sccs([bid for bid, b in facts.bodies.items() if b.kind in ("fn", "method", "closure")]):
             self.cyclic |= set(comp)
@@ -285,8 +286,56 @@ class Interproc:
         if s is not None and s.analysed:
             return s
         if bid in self.in_progress:
-            return None          # recursion: no summary available
+            # recursion: use the previous round's summary (None in the first round: the recursive call site is
+            # re-checked in the next round against the exports computed in this one)
+            return self.prev_sum.get(bid)
         return self.analyse(bid)
+
+    def run_scope(self, bodies):
+        """analyse all `bodies`; bodies from which a recursive cycle is reachable are re-analysed until the
+        exported preconditions of the cycle members are stable (recursive call sites checked against them)"""
+        for bid in bodies:
+            self.summary(bid)
+        if not self.cyclic:
+            return 1
+        # who depends on a cyclic body?
+        rev = {}
+        for a, es in self.cg.edges.items():
+            for c, k, i in es:
+                rev.setdefault(c, set()).add(a)
+        dep = set()
+        st = [c for c in self.cyclic if c in self.sum]
+        while st:
+            x = st.pop()
+            if x in dep:
+                continue
+            dep.add(x)
+            st.extend(rev.get(x, ()))
+        dep &= set(self.sum.keys())
+        rounds = 1
+
+        def sig():
+            out = {}
+            for c in self.cyclic:
+                s = self.sum.get(c)
+                if s is not None:
+                    out[c] = sorted({(lf.origin, lf.desc, lf.kind, repr(lf.parts)) for lf in s.exports})
+            return out
+        while rounds < 5:
+            before = sig()
+            self.prev_sum = dict(self.sum)
+            for bid in dep:
+                self.sum.pop(bid, None)
+                self.results.pop(bid, None)
+            for bid in bodies:
+                self.summary(bid)
+            for bid in dep:
+                if bid not in self.sum and self.f.bodies[bid].kind in ("fn", "method", "closure"):
+                    self.summary(bid)
+            rounds += 1
+            if sig() == before:
+                break
+        return rounds
 
     def analyse(self, bid):
         b = self.f.bodies[bid]
@@ -336,8 +385,13 @@ class Interproc:
 
     def make_exports(self, b, res, written):
         out = []
-        if b.id in self.cyclic:
-            return out           # no lifting out of recursive functions: their failing sites are final
+        seen = set()
+
+        def add(lf):
+            k = (lf.origin, lf.cls, lf.desc, lf.kind, repr(lf.parts))
+            if k not in seen:
+                seen.add(k)
+                out.append(lf)
         for o in res.obls:
             if o.ok or o.lift is None:
                 continue
@@ -346,12 +400,12 @@ class Interproc:
             if kind == "lifted":
                 lf = o.lift[1]
                 if self._parts_ok(b, lf.kind, lf.parts, written):
-                    out.append(lf)
+                    add(lf)
                     o.rule = "exported"
                 continue
             parts = o.lift[1:]
             if self._parts_ok(b, kind, parts, written):
-                out.append(Lifted(o.cls, kind, parts, b.id, o.desc, o.what, o.file, o.line, [b.id]))
+                add(Lifted(o.cls, kind, parts, b.id, o.desc, o.what, o.file, o.line, [b.id]))
                 o.rule = "exported"
         return out
 
@@ -435,6 +489,11 @@ class Interproc:
             if ty0["k"] in ("adt", "tuple"):
                 fl = {}
                 for steps, ftix in self._num_leaves(tix0):
+                    if isinstance(ftix, tuple):
+                        t = ("len", 0, steps)
+                        i = absdom.iv_meet(st.iv.get(t, FULL), (0, LEN_MAX))
+                        fl[("len",) + steps] = (i, None)
+                        continue
                     t = ("v", 0, steps)
                     sv = st.sym.get((0, steps))
                     val = sv if (sv is not None and sv[0] in ("n", "iv")) else ("n", t, 0)
@@ -471,6 +530,8 @@ class Interproc:
                 for nm, ft in adt["variants"][0]["fields"]:
                     if T[ft]["k"] in ("int", "bool", "char"):
                         out.append((prefix + (nm,), ft))
+                    elif T[ft]["k"] == "adt" and T[ft]["adt"] in ("std::vec::Vec", "std::string::String", "std::collections::VecDeque"):
+                        out.append((prefix + (nm,), ("len", ft)))
                     elif T[ft]["k"] in ("adt", "tuple"):
                         out += self._num_leaves(ft, prefix + (nm,), depth + 1)
         elif ty["k"] == "tuple":
@@ -724,6 +785,10 @@ class Interproc:
         if fl:
             st.kill(d, whole_local=not d[1])
             for steps, (i, al) in fl.items():
+                if steps[:1] == ("len",):
+                    t = ("len", d[0], d[1] + steps[1:])
+                    st.set_iv(t, i[0], i[1])
+                    continue
                 t = ("v", d[0], d[1] + steps)
                 st.set_iv(t, i[0], i[1])
                 if al is not None:
